@@ -2,7 +2,7 @@
 from .. import terms as T, sq, alg
 from ..harness import (Crate, State, Ref, ArrV, Struct, EnumV, OpaqueV, flat_leaves, Anchor, Unsupported, SymbolicLoop, Diverged,
                        symbolic_args, same_value, synth_call, ref_ty, ty_id)
-from ..ref import xoshiro as REF
+from ..ref import xoshiro as REF, isaac as IREF
 from .linear import Gen, RNGCORE, SEEDABLE
 from .c01 import eval_from_seed
 from .c08_loops import check_redraw_loops
@@ -110,8 +110,105 @@ def _from_call(leaf, call):
     return False
 
 
+def init_shape(crate, init_def):
+    """the private initialisation helper has today's shape (256-word array, number of passes)"""
+    key = next((k for k, b in crate.bodies.items() if b["def"] == init_def), None)
+    if key is None:
+        return False
+    b = crate.bodies[key]
+    tys = crate.evaluator().tys
+    return b["argc"] == 2 and tys[b["locals"][1]]["k"] == "array" and tys[b["locals"][1]].get("len") == 256 and tys[b["locals"][2]]["s"] == "u32"
+
+
+def core_matches(core, exp, g, w):
+    """-> None if the core value is randinit's memory with a = b = c = 0"""
+    from .c03 import core_fields
+    iM, iA, iB, iC = core_fields(g)
+    if not isinstance(core, Struct):
+        return "not a core value"
+    mem = core.fields[iM]
+    bad = [i for i in range(256) if mem.get(i) is not exp[i]]
+    if bad:
+        return "memory word %d differs: %s" % (bad[0], T.diff(mem.get(bad[0]), exp[bad[0]]))
+    z = T.const(0, w)
+    if not all(core.fields[i] is z for i in (iA, iB, iC)):
+        return "a, b, c are not all zero"
+    return None
+
+
+def check_isaac_whole(chk, crate, core_ident, w):
+    """the routes compared whole, everything inlined, against the reference initialisation (used when the private helper between
+    the routes and the state no longer has the shape the fragment rules R3/R4 take apart)"""
+    g = Gen(crate, core_ident)
+    zero = T.const(0, w)
+    # seed_from_u64
+    key = g.method(SEEDABLE, "seed_from_u64")
+    body = crate.body(key)
+    chk.body(key)
+    x = T.sym("x", 64)
+    try:
+        r = crate.evaluator(max_steps=4000000).call_body(State(), key, [x])
+        kw = [T.trunc(x, 32), T.trunc(T.lshr(x, 32), 32)] if w == 32 else [x]
+        msg = core_matches(r, IREF.randinit(kw + [zero] * (256 - len(kw)), w, 1), g, w)
+    except (Unsupported, SymbolicLoop, Diverged) as e:
+        msg = "not established: %s" % e
+    chk.ob("R3", "%s::seed_from_u64|state = one initialisation pass on (x, 0, ...), whole route" % core_ident, msg is None, msg or "",
+           where=body["span"][0], sample={"core": core_ident, "route": "seed_from_u64"})
+    # from_seed
+    key = g.method(SEEDABLE, "from_seed")
+    body = crate.body(key)
+    chk.body(key)
+    try:
+        ev = crate.evaluator(max_steps=4000000)
+        leaves = []
+        seed = ev.symbolic(body["locals"][1], "seed", leaves)
+        r = ev.call_body(State(), key, [seed])
+        words = REF.le_words(leaves, w)
+        msg = core_matches(r, IREF.randinit(words + [zero] * (256 - len(words)), w, 2), g, w)
+    except (Unsupported, SymbolicLoop, Diverged) as e:
+        msg = "not established: %s" % e
+    chk.ob("R3", "%s::from_seed|state = two passes on the little-endian seed words zero-extended, whole route" % core_ident, msg is None,
+           msg or "", where=body["span"][0])
+    # from_rng / try_from_rng
+    nbytes = 256 * w // 8
+    for m in ("from_rng", "try_from_rng"):
+        key = g.method(SEEDABLE, m)
+        body = crate.body(key)
+        chk.body(key)
+        ev = crate.evaluator(max_steps=6000000)
+        st = State()
+        try:
+            args, objs = symbolic_args(ev, st, body)
+            ret = ev.call_body(st, key, args)
+        except (Unsupported, SymbolicLoop, Diverged) as e:
+            chk.ob("R4", "%s::%s" % (core_ident, m), False, "not established: %s" % e, where=body["span"][0])
+            continue
+        fills = [c for c in ev.calls if c[1].split("::")[-1] in ("fill_bytes", "try_fill_bytes")]
+        msg = None if len(fills) == 1 and len(ev.calls) == 1 else "calls on the source: %s" % [c[1].split("::")[-1] for c in ev.calls]
+        core = ret
+        if msg is None and m == "try_from_rng":
+            call = fills[0][4]
+            d = T.atom("res", 64, (call,), "ret.discr")
+            ok5 = isinstance(ret, EnumV) and isinstance(ret.discr, T.T) and T.eqz(ret.discr) is T.eqz(d) and 1 in ret.payloads \
+                and 0 in ret.payloads and _from_call(ret.payloads[1][0], call)
+            chk.ob("R5", "%s::try_from_rng|Ok iff the source succeeded; Err carries the source's error" % core_ident, ok5, "", where=body["span"][0])
+            core = ret.payloads[0][0] if ok5 else None
+        if msg is None and core is not None:
+            call = fills[0][4]
+            words = T.atom("le_words", w, (T.atom("effbytes", 8, (call,), (1, nbytes)),), w)
+            byts = [T.select(T.atom("effarr", 8, (call,), (1, nbytes)), T.const(j, 64), 8) for j in range(nbytes)]
+            cands = [[T.select(words, T.const(i, 64), w) for i in range(256)], REF.le_words(byts, w)]
+            msgs = [core_matches(core, IREF.randinit(c, w, 2), g, w) for c in cands]
+            msg = None if None in msgs else msgs[0]
+        chk.ob("R4", "%s::%s|one fill of %d bytes; state = two passes on its little-endian %d-bit words, whole route" % (core_ident, m, nbytes, w),
+               msg is None, msg or "", where=body["span"][0], sample={"core": core_ident, "route": m, "bytes": nbytes})
+
+
 def check_isaac(chk, crate, core_ident, w, init_def):
-    init_def = sq.find_fn(crate, init_def, r"fn\(\[.*; \w+\], u32\) -> .*", scope=init_def.rsplit("::", 1)[0])
+    init_def = sq.find_fn(crate, init_def, r"fn\(.*\) -> .*", scope=init_def.rsplit("::", 1)[0]) if any(
+        b["def"] == init_def for b in crate.bodies.values()) else sq.find_fn(crate, init_def, r"fn\(\[.*; \w+\], u32\) -> .*", scope=init_def.rsplit("::", 1)[0])
+    if not init_shape(crate, init_def):
+        return check_isaac_whole(chk, crate, core_ident, w)
     init_name = "::" + init_def.split("::")[-1]
     g = Gen(crate, core_ident)
     n = 256
@@ -233,5 +330,5 @@ def run(chk, tier):
     check_wrapper(chk, isaac, "Isaac64Rng", "BlockRng64", ["from_seed", "seed_from_u64", "from_rng", "try_from_rng"])
     check_isaac(chk, isaac, "IsaacCore", 32, "rand_isaac::isaac::IsaacCore::init")
     check_isaac(chk, isaac, "Isaac64Core", 64, "rand_isaac::isaac64::Isaac64Core::init")
-    check_redraw_loops(chk, xs, Gen(xs, "XorShiftRng"), "R6")
+    check_redraw_loops(chk, xs, Gen(xs, "XorShiftRng"), "R6", must_agree=True)
     chk.floor("R0", "xoshiro-family seed_from_u64 routes", cnt, 14)
